@@ -68,7 +68,8 @@ def _event(st, inside=(), border=(), shapes=None, emptyOK=True):
 
 
 def _trace(cfg, kind, dim=1, cart=True):
-    return dict(cfg=cfg, kind=kind, dim=dim, cart=bool(cart), exc="", skipped="", stores=[], ev=[])
+    # fresh: the generator has not served a batch yet (sentinel cursors): its first draw must reshuffle
+    return dict(cfg=cfg, kind=kind, dim=dim, cart=bool(cart), fresh=True, exc="", skipped="", stores=[], ev=[])
 
 
 def _box(cfg):
